@@ -940,6 +940,11 @@ func lockPairing(ic *IC, r *Report, rule string) {
 var guardedBy = []struct{ typ, field, mutex string }{
 	{"frame", "done", "mutex"},
 	{"Interpreter", "done", "mutex"},
+	// the virtual environment: a map shared by every goroutine of the script through os.Getenv/Setenv
+	// (D132: unsynchronised, a concurrent Setenv/Getenv killed the host - fatal error: concurrent map
+	// read and map write cannot be recovered). The mutex is a field of the Interpreter, the map is
+	// reached through the embedded options.
+	{"opt", "env", "envMu"},
 }
 
 // Accesses that are exempt, with their reason. Keyed function/Type.field/kind.
@@ -947,6 +952,8 @@ var guardedExempt = map[string]string{
 	"newFrame/frame.done/write":              "constructor: the frame is not yet shared",
 	"newFrame/frame.done/read":               "constructor reads the ancestor's done, which is only written by run() before the execution it belongs to starts",
 	"Interpreter.stop/Interpreter.done/read": "stop closes the channel installed by the *WithContext entry point that is calling it; that store happened-before (same goroutine)",
+	"New/opt.env/write":                      "constructor: the interpreter is not yet shared",
+	"New/opt.env/read":                       "constructor: the interpreter is not yet shared",
 }
 
 func c08Guarded(ic *IC, r *Report, rule string) {
@@ -970,6 +977,18 @@ func c08Guarded(ic *IC, r *Report, rule string) {
 				case *ast.AssignStmt:
 					for _, l := range x.Lhs {
 						if se, ok := unparen(l).(*ast.SelectorExpr); ok && selField(ic.Info, se) == fld {
+							writes[se] = true
+						}
+						// an element store into the map (or slice) held by the field
+						if ix, ok := unparen(l).(*ast.IndexExpr); ok {
+							if se, ok := unparen(ix.X).(*ast.SelectorExpr); ok && selField(ic.Info, se) == fld {
+								writes[se] = true
+							}
+						}
+					}
+				case *ast.CallExpr:
+					if id := identOf(x.Fun); id != nil && id.Name == "delete" && len(x.Args) == 2 {
+						if se, ok := unparen(x.Args[0]).(*ast.SelectorExpr); ok && selField(ic.Info, se) == fld {
 							writes[se] = true
 						}
 					}
